@@ -58,9 +58,11 @@ def alloc_trace(ctx):
 
     I = mk_interp(ctx, inline=pol, call_hook=hook, max_paths=6000)
     outs = I.run_function(f, bind={"__defaults__": True})
-    if len(outs) != 1:
-        raise AnalysisError(f"allocation function has {len(outs)} top-level paths (expected 1)")
-    res = (f, outs[0][0].trace, I)
+    normal = [st for st, ex in outs if ex is None or ex[0] == "return" and not any(isinstance(e, Loop) and any(x is not None and x[0] == "return" for _t, x in e.alts) for e in st.trace)]
+    if not normal:
+        raise AnalysisError("allocation function has no normal path")
+    I.all_traces = [(st.trace, ex) for st, ex in outs]
+    res = (f, normal[0].trace, I)
     _CACHE[key] = res
     return res
 
